@@ -2032,10 +2032,60 @@ func genDepositPermutations(o hreg.Opts, rng *rand.Rand, w *bufio.Writer) {
 	}
 }
 
+// genDepositDivergent: new-validator deposits on the COMMON prefix (so that per-validator slices of the context
+// have grown, possibly with spare capacity), then CopyState + Clone into siblings, then DIFFERENT new-validator
+// deposits (different keys, different amounts, hence different effective balances) on each sibling, interleaved
+// with slots. After every step on any handle the bytes, root and context dump (effective balances included) of
+// every other handle must be what they were; each sibling is also compared with a from-scratch reference.
+func genDepositDivergent(o hreg.Opts, rng *rand.Rand, w *bufio.Writer) {
+	st := o.Stats
+	n := o.Pick(12, 200)
+	forks := []string{"phase0", "altair", "bellatrix", "capella", "deneb"}
+	amounts := []uint64{32000000000, 17000000000, 1000000000, 31000000000, 40000000000, 24000000000, 9000000000}
+	for i := 0; i < n; i++ {
+		fmt.Fprintln(w, "reset")
+		fmt.Fprintf(w, "live a %s %d\n", forks[i%len(forks)], rng.Int63n(1000))
+		// make sure the context carries per-validator stake data (loaded at an epoch boundary)
+		if rng.Intn(4) != 0 {
+			fmt.Fprintf(w, "mut a slots %d\n", 8+rng.Intn(3))
+		}
+		np := 1 + rng.Intn(3) // deposits on the common prefix
+		for j := 0; j < np; j++ {
+			fmt.Fprintf(w, "mut a dep %d %d\n", 40+j, amounts[rng.Intn(len(amounts))])
+		}
+		k := 2 + rng.Intn(2)
+		sib := []string{"a", "b", "c"}[:k]
+		for _, h := range sib[1:] {
+			fmt.Fprintf(w, "copy a %s\n", h)
+		}
+		for _, h := range sib {
+			fmt.Fprintf(w, "fresh a r%s\n", h)
+		}
+		st.Add("deposit-divergent", fmt.Sprintf("%d-prefix-%d-siblings", np, k))
+		steps := 3 + rng.Intn(6)
+		key := 50
+		for j := 0; j < steps; j++ {
+			x := rng.Intn(k)
+			var op string
+			switch rng.Intn(6) {
+			case 0:
+				op = fmt.Sprintf("slots %d", []int{1, 8, 9}[rng.Intn(3)])
+			case 1: // top-up of a prefix validator
+				op = fmt.Sprintf("dep %d %d", 40+rng.Intn(np), amounts[rng.Intn(len(amounts))])
+			default: // a NEW validator only this sibling gets, with its own amount
+				op = fmt.Sprintf("dep %d %d", key, amounts[(j+x+rng.Intn(3))%len(amounts)])
+				key++
+			}
+			fmt.Fprintf(w, "mut %s %s\nmut r%s %s\nsame %s r%s\n", sib[x], op, sib[x], op, sib[x], sib[x])
+		}
+	}
+}
+
 func genCopies(o hreg.Opts, rng *rand.Rand, w *bufio.Writer) {
 	genSiblings(o, rng, w)
 	genDeposits(o, rng, w)
 	genDepositPermutations(o, rng, w)
+	genDepositDivergent(o, rng, w)
 	st := o.Stats
 	n := o.Pick(25, 500)
 	forks := []string{"phase0", "altair", "bellatrix", "capella", "deneb"}
